@@ -3,7 +3,7 @@
 // not under contract: the rest of the yacc grammar parser and the AST builders (faithfulness judged by the c10 sweep when one changes)
 //@pin file=cfgrammar/src/lib/yacc/parser.rs fn=parse sha=9ea0ca7997c256a8
 //@pin file=cfgrammar/src/lib/yacc/parser.rs fn=parse_rules sha=499c9e675c2e74c2
-//@pin file=cfgrammar/src/lib/yacc/parser.rs fn=parse_rule sha=64cffea368537126
+//@pin file=cfgrammar/src/lib/yacc/parser.rs fn=parse_rule sha=808b80f35b423e0e
 //@pin file=cfgrammar/src/lib/yacc/parser.rs fn=parse_action sha=e00c613ee10ea206
 //@pin file=cfgrammar/src/lib/yacc/parser.rs fn=parse_programs sha=bb9c484143dab195
 //@pin file=cfgrammar/src/lib/yacc/parser.rs fn=build sha=662f52b88f00489d
